@@ -1768,7 +1768,7 @@ impl Date {
         let args: DateDifference = other.into();
         let span = args.since_with_largest_unit(self)?;
         if args.rounding_may_change_span() {
-            span.round(args.round.relative(self))
+            span.round(args.round.largest(args.get_largest()).relative(self))
         } else {
             Ok(span)
         }
@@ -1804,7 +1804,7 @@ impl Date {
         let args: DateDifference = other.into();
         let span = -args.since_with_largest_unit(self)?;
         if args.rounding_may_change_span() {
-            span.round(args.round.relative(self))
+            span.round(args.round.largest(args.get_largest()).relative(self))
         } else {
             Ok(span)
         }
@@ -2907,6 +2907,15 @@ impl DateDifference {
         DateDifference { round: self.round.increment(increment), ..self }
     }
 
+    /// Returns the largest unit of the span computed by this configuration:
+    /// either the one set explicitly or the default.
+    #[inline]
+    fn get_largest(&self) -> Unit {
+        self.round
+            .get_largest()
+            .unwrap_or_else(|| self.round.get_smallest().max(Unit::Day))
+    }
+
     /// Returns true if and only if this configuration could change the span
     /// via rounding.
     #[inline]
@@ -2920,10 +2929,7 @@ impl DateDifference {
     #[inline]
     fn since_with_largest_unit(&self, d1: Date) -> Result<Span, Error> {
         let d2 = self.date;
-        let largest = self
-            .round
-            .get_largest()
-            .unwrap_or_else(|| self.round.get_smallest().max(Unit::Day));
+        let largest = self.get_largest();
         if largest < Unit::Day {
             // This is the only error case when not rounding! Somewhat
             // unfortunate. I did consider making this a panic instead, because
